@@ -5,6 +5,7 @@ RMS in an image.
 """
 
 import warnings
+from copy import copy
 
 import astropy.units as u
 import numpy as np
@@ -260,7 +261,10 @@ class Background2D:
         self.interpolator = interpolator
 
         # we perform sigma clipping as a separate step to avoid
-        # calling it twice for the background and background RMS
+        # calling it twice for the background and background RMS;
+        # use copies so that the input estimators are not modified
+        bkg_estimator = copy(bkg_estimator)
+        bkgrms_estimator = copy(bkgrms_estimator)
         bkg_estimator.sigma_clip = None
         bkgrms_estimator.sigma_clip = None
         self.bkg_estimator = bkg_estimator
